@@ -7,9 +7,10 @@ PROPS = {
     "C10": {
         "level": "other",
         "modules": ["schema", "enclosing"],
-        "functions": [RE + "_strip_enclosing", AE + "__init__", AE + "_enclose"],
+        "functions": [RE + "_strip_enclosing", RE + "transform_entry", RE + "transform_string",
+                      AE + "__init__", AE + "_enclose", AE + "transform_entry", AE + "transform_string"],
         "lemmas": ["C10.reuse-restores", "C10.default-then-strip"],
-        "native": None,
+        "native": "p10",
         "explanation": "proved: one-layer strip with recorded kind, reuse restores, default enclosing, integer rule, no exception (contracts on the real functions + two lemmas); bounded: re-parse of enclosed values (native layer)",
     },
     "C06": {
